@@ -214,7 +214,7 @@ Proved here for every file made of the entry forms of RFC 1035 §5.1 / RFC 2308 
 of the printer (`File.ok`), under three explicit, decidable restrictions:
 
 * (lexical) no quoted string inside parentheses, no `\DDD` — the known findings;
-* (`readFile … = some …`) TTLs are decimal and fit `u32`, classes are IN/CH/HS, types are the ten
+* (`readFile … = some …`) TTLs are decimal and fit `u32`, classes are IN/CH/HS, types are the twelve
   modelled mnemonics in any letter case, parentheses only in the RDATA, every record has a TTL
   (its own, `$TTL`, or the last explicit one), `<blank>`/`@` owners have something to inherit;
 * (`FileNamesOK`) each owner / `$ORIGIN` name text parses to the name the entry is taken to state
